@@ -1,25 +1,25 @@
 /-
 C15 — A duty height once started or decided is never run again, even after restart.
-Property theorems only (helper lemmas: Ssv/Proofs/Heights*.lean; model: Ssv/Model/Heights.lean).
+Property theorems only (helper lemmas: Ssv/Proofs/Heights*.lean; model: Ssv/Model/Heights.lean = the CURRENT tree, i.e.
+with the fixes 358626700 (a stored decided instance is only replaced by a higher height or by more signers),
+26e2e6b00 (an instance reloaded from storage is kept) and c50569811 (a duty that holds a decided value counts as
+previously decided)).
 
 All statements quantify over ALL histories `ops : List Op` of duty starts (attester-style `start`, two-phase
 `begin`/`decide`), commit/decided messages of any height, round, root, signer list and validity (through the
-controller or through the runner), compactions and restarts (each restart may pick full or light mode), from the
-initial state of a full or a light node, with any quorum `q`.  No bound on anything.
+controller or through the runner, optionally while the store fails the write), decisions of the running instance by a
+commit quorum (with the runner's value check accepting or rejecting), compactions and restarts (each restart may pick
+full or light mode), from the initial state of a full or a light node, with any quorum `q`.  No bound on anything.
 
-Three clauses of the property:
-  1. `C15_no_restart_of_old_height`   FALSE on this tree for full nodes (storage reload), see `_full_refuted`;
-                                      proved for light nodes, for attester-style starts of slots ≠ 0 on every node,
-                                      and in the weaker "never BELOW a seen height" form on every node.
-  2. `C15_highest_survives_restart`   proved (all nodes), together with `C15_stored_highest_never_rerun`.
-  3. `C15_highest_replaced_monotone`  FALSE on this tree (two different witnesses), see `_full_refuted*`;
-                                      proved: height never decreases / record never lost; at the same height a
-                                      replacement has strictly more signers than everything in its own (round, root)
-                                      bucket of the live commit container, hence more than the replaced certificate
-                                      whenever that has the same (round, root) and its round is not below State.Round.
+All three clauses of the property are proved in full for this model:
+  1. `C15_no_restart_of_old_height`    (full and light nodes, both kinds of consensus start)
+  2. `C15_highest_survives_restart`, `C15_stored_highest_never_rerun`, `C15_top_decided_is_stored`
+  3. `C15_highest_replaced_monotone`   (highest record AND every historical record, from ANY state)
+The semantics before the first two fixes (Ssv/Model/HeightsOld.lean) violated 1 and 3; the three witnesses are kept as
+regression lemmas (`C15_regression_*`): they go through on the old semantics and are closed on the current one.
 -/
 import Ssv.Proofs.HeightsTop
-import Ssv.Proofs.HeightsRepaired
+import Ssv.Model.HeightsOld
 
 namespace Ssv.Heights
 
@@ -34,14 +34,16 @@ theorem C15_tie_constants :
 
 /-- `Controller.SaveInstance` is where the controller package writes to the store (three Save* calls, in this order,
     selected by `fullNode` and `isHighest := msg.Height >= c.Height`); none of the other controller functions on the
-    modelled paths touches the storage's Save*; `UponDecided` saves through `c.SaveInstance` after comparing with
-    `LongestUniqueSignersForRoundAndRoot`; reads go through `GetInstance` / `GetHighestInstance` only -/
+    modelled paths touches the storage's Save*; `UponDecided`: `InstanceForHeight`, then `FindInstance` +
+    `addNewInstance` (the reloaded instance is kept), then the branches (`addNewInstance` for a new instance,
+    `IsDecided`, comparison with `LongestUniqueSignersForRoundAndRoot`), then `FindInstance` + `c.SaveInstance`; reads go
+    through `GetInstance` / `GetHighestInstance` only -/
 theorem C15_tie_controller_callsites :
     Gen.calls_heights_SaveInstance =
       ["GetStorage().SaveHighestAndHistoricalInstance", "GetStorage().SaveInstance", "GetStorage().SaveHighestInstance"] ∧
     Gen.lits_heights_SaveInstance = ["u&", ">="] ∧
     Gen.calls_heights_UponDecided =
-      ["ValidateDecided", "errors.Wrap", "InstanceForHeight", "addNewInstance", "IsDecided",
+      ["ValidateDecided", "errors.Wrap", "InstanceForHeight", "FindInstance", "addNewInstance", "addNewInstance", "IsDecided",
        "LongestUniqueSignersForRoundAndRoot", "FindInstance", "c.SaveInstance", "NewDecidedHandler"] ∧
     Gen.calls_heights_StartNewInstance = ["FindInstance", "addAndStoreNewInstance", "forceStopAllInstanceExceptCurrent"] ∧
     Gen.calls_heights_UponExistingInstanceMsg = ["InstanceForHeight"] ∧
@@ -57,6 +59,12 @@ theorem C15_tie_container :
     Gen.lits_heights_addNewInstance = ["==", "0", "0", "<", "==", "<", "==", "+", "1", "+", "1"] ∧
     Gen.lits_heights_FindInstance = ["!=", "=="] := by decide
 
+/-- the store: a compacted copy; each key is read (`GetHighestInstance` / `GetInstance`) and written (`save`) only if
+    `replaces` says so; `replaces` = nil checks, height `!=` → `<`, else signer counts `<` -/
+theorem C15_tie_store :
+    Gen.calls_heights_store_saveInstance = ["CompactCopy", "GetHighestInstance", "replaces", "save", "GetInstance", "replaces", "save"] ∧
+    Gen.lits_heights_replaces = ["||", "||", "||", "==", "==", "==", "==", "!=", "<", "<"] := by decide
+
 /-- order facts the model relies on:
     * in `UponDecided` the only error that is RETURNED is the wrapped `ValidateDecided` error (one `errors.Wrap`, before
       anything else); a `SaveInstance` failure is logged, and the height bump / `NewDecidedHandler` follow the save block;
@@ -68,11 +76,10 @@ theorem C15_tie_save_order :
     (Gen.calls_heights_baseConsensusMsgProcessing.dropWhile (· != "QBFTController.SaveInstance")) =
       ["QBFTController.SaveInstance", "decidedValue.Decode", "validateDecidedConsensusData"] := by decide
 
-/-- the store compacts a copy before writing; `Validator.Start` loads the highest instance and sets the runner's
-    highest decided slot; `baseStartNewDuty` = guard, new state, executeDuty; `decide` starts the instance and looks it up;
-    the runner compacts after ProcessMsg and then saves through the controller's `SaveInstance` -/
-theorem C15_tie_runner_store_callsites :
-    Gen.calls_heights_store_saveInstance = ["CompactCopy", "save", "save"] ∧
+/-- `Validator.Start` loads the highest instance and sets the runner's highest decided slot; `baseStartNewDuty` = guard,
+    new state, executeDuty; `decide` starts the instance and looks it up; the runner compacts after ProcessMsg and then
+    saves through the controller's `SaveInstance` -/
+theorem C15_tie_runner_callsites :
     Gen.calls_heights_ValidatorStart = ["LoadHighestInstance", "SetHighestDecidedSlot"] ∧
     Gen.calls_heights_baseStartNewDuty = ["ShouldProcessDuty", "baseSetupForNewDuty", "executeDuty"] ∧
     Gen.calls_heights_decide = ["StartNewInstance", "InstanceForHeight"] ∧
@@ -84,102 +91,47 @@ theorem C15_tie_runner_store_callsites :
 
 /-! ## clause 1 — no consensus start at or below a height already started or learned decided -/
 
-/-- FULL STATEMENT (in-process): whenever an op starts consensus for `slot` (attester-style `start`, or the `decide`
-    of a two-phase runner), `slot` is above every height started or learned decided since the last restart and above
-    the stored highest height at that restart. -/
-def C15_no_restart_of_old_height_full : Prop :=
-  ∀ (full : Bool) (q : Nat) (ops : List Op) (op : Op) (slot : Nat),
-    consensusStart (runSeen (init full q) [] ops).1 op = some slot →
-    ∀ h ∈ (runSeen (init full q) [] ops).2, h < slot
-
-/-- witness (full node): height 9 started; the decided message of height 5 arrives late — a full node files it in the
-    historical store only; restart (nothing stored as highest → Height 0); a two-phase duty for slot 5 passes the guard;
-    the decided message of height 5 is delivered again: `InstanceForHeight` reloads the instance from storage into a
-    temporary object (not put into `StoredInstances`, not saved as highest), Height := 5; `decide` then starts an
-    instance for height 5. -/
-def witnessReload : List Op :=
-  [.start 9, .decided 5 1 110 [1, 2, 3] true false, .restart true, .begin 5, .decided 5 1 110 [1, 2, 3] true false]
-
-theorem C15_no_restart_of_old_height_full_refuted : ¬ C15_no_restart_of_old_height_full := by
-  intro H
-  have h := H true 3 witnessReload .decide 5 (by decide) 5 (by decide)
-  omega
-
-/-- the same defect reaches the attester-style atomic `StartNewDuty` only through the `Height != 0` exemption (slot 0) -/
-example : consensusStart
-      (runSeen (init true 3) [] [.start 3, .decided 0 1 100 [1, 2, 3] true false, .restart true,
-        .decided 0 1 100 [1, 2, 3] true false]).1 (.start 0) = some 0 ∧
-    0 ∈ (runSeen (init true 3) [] [.start 3, .decided 0 1 100 [1, 2, 3] true false, .restart true,
-        .decided 0 1 100 [1, 2, 3] true false]).2 := by decide
-
-/-- PARTIAL (a): on a light node (and every restart stays light) the full statement holds.
-    Missing for full nodes: `InstanceForHeight`'s reload from storage creates an instance that is neither kept in
-    `StoredInstances` nor saved as highest, so `StartNewInstance` does not see the height as existing. -/
-theorem C15_no_restart_of_old_height_partial_light (q : Nat) (ops : List Op) (hl : LightOps ops) (op : Op) (slot : Nat)
-    (hcs : consensusStart (runSeen (init false q) [] ops).1 op = some slot) :
-    ∀ h ∈ (runSeen (init false q) [] ops).2, h < slot := by
+/-- CLAUSE 1, in full (in-process): whenever an op starts consensus for `slot` — attester-style `start`, or the `decide`
+    of a two-phase runner — `slot` is strictly above every height started or learned decided (valid decided message
+    delivered, whether or not the store write succeeded) since the last restart, and above the stored highest height at
+    that restart. Full and light nodes, any mode switches at restarts. -/
+theorem C15_no_restart_of_old_height (full : Bool) (q : Nat) (ops : List Op) (op : Op) (slot : Nat)
+    (hcs : consensusStart (runSeen (init full q) [] ops).1 op = some slot) :
+    ∀ h ∈ (runSeen (init full q) [] ops).2, h < slot := by
   intro h hh
-  have hinv : SInv (runSeen (init false q) [] ops).1 := by rw [runSeen_fst]; exact SInv.reach false q ops
-  have hle : SeenLe (runSeen (init false q) [] ops).1 (runSeen (init false q) [] ops).2 :=
+  have hinv : SInv (runSeen (init full q) [] ops).1 := by rw [runSeen_fst]; exact SInv.reach full q ops
+  have hle : SeenLe (runSeen (init full q) [] ops).1 (runSeen (init full q) [] ops).2 :=
     SeenLe.runSeen (by intro x hx; simp at hx) ops
-  have htop : SeenTop (runSeen (init false q) [] ops).1 (runSeen (init false q) [] ops).2 :=
-    SeenTop.runSeen (SInv.init false q) (by intro x hx; simp at hx) ⟨rfl, by intro x hx; simp at hx⟩ ops hl
+  have htop : SeenTop (runSeen (init full q) [] ops).1 (runSeen (init full q) [] ops).2 :=
+    SeenTop.runSeen (SInv.init full q) (by intro x hx; simp at hx) (by intro x hx; simp at hx) ops
   obtain ⟨c', hst, _, _⟩ := consensusStart_ok hcs
   obtain ⟨h1, hnone, _⟩ := startNewInstance_ok hst
   have h2 := hle h hh
   by_cases heq : h = slot
-  · have hc : h = (runSeen (init false q) [] ops).1.c.height := by omega
-    have hat := htop.2 h hh hc
+  · have hc : h = (runSeen (init full q) [] ops).1.c.height := by omega
+    have hat := htop h hh hc
     unfold AtTop at hat
     rw [← hc, heq, hnone] at hat
     cases hat
   · omega
 
-/-- non-vacuity of (a): a light node that restarted with highest 5 starts slot 6 -/
-example : LightOps [.decided 5 1 110 [1, 2, 3] true false, .restart false] ∧
-    consensusStart (runSeen (init false 3) [] [.decided 5 1 110 [1, 2, 3] true false, .restart false]).1 (.start 6) = some 6 ∧
-    (runSeen (init false 3) [] [.decided 5 1 110 [1, 2, 3] true false, .restart false]).2 = [5] := by
-  refine ⟨?_, by decide, by decide⟩
-  intro op hop f hf
-  simp at hop
-  rcases hop with rfl | rfl
-  · cases hf
-  · cases hf; rfl
-
-/-- PARTIAL (b): on EVERY node, an attester-style `StartNewDuty` (guard and consensus start in one call) for a slot
-    other than 0 succeeds only above everything seen. (Slot 0 is exempted by `Height != 0` in `ShouldProcessDuty`.) -/
-theorem C15_no_restart_of_old_height_partial_attester (full : Bool) (q : Nat) (ops : List Op) (slot : Nat) (h0 : slot ≠ 0)
-    (hcs : consensusStart (runSeen (init full q) [] ops).1 (.start slot) = some slot) :
-    ∀ h ∈ (runSeen (init full q) [] ops).2, h < slot := by
-  intro h hh
-  have hle : SeenLe (runSeen (init full q) [] ops).1 (runSeen (init full q) [] ops).2 :=
-    SeenLe.runSeen (by intro x hx; simp at hx) ops
-  obtain ⟨c', _, _, hg⟩ := consensusStart_ok hcs
-  have hg' := hg rfl
-  unfold guardRefuses at hg'
-  have h2 := hle h hh
-  by_cases hz : (runSeen (init full q) [] ops).1.c.height = 0
-  · omega
-  · have : ¬ slot ≤ (runSeen (init full q) [] ops).1.c.height := by
-      intro hc
-      simp [hc, hz] at hg'
-    omega
-
-example : consensusStart (runSeen (init true 3) [] [.start 4, .decided 6 2 112 [1, 2, 4] true true]).1 (.start 7) = some 7 := by
+/-- non-vacuity: a full node that restarted with highest 5 starts slot 6; a future decided message learned during a
+    failing store write still bumps the height: the duty in between is refused, the one above is fine -/
+example : consensusStart (runSeen (init true 3) [] [.decided 5 1 110 [1, 2, 3] true false, .restart true]).1 (.start 6) = some 6 ∧
+    (runSeen (init true 3) [] [.decided 5 1 110 [1, 2, 3] true false, .restart true]).2 = [5] ∧
+    (runSeen (init false 3) [] [.start 5, .decidedSF 10 1 120 [1, 2, 3] true false]).2 = [5, 10] ∧
+    (runSeen (init false 3) [] [.start 5, .decidedSF 10 1 120 [1, 2, 3] true false]).1.s.highest = none ∧
+    consensusStart (runSeen (init false 3) [] [.start 5, .decidedSF 10 1 120 [1, 2, 3] true false]).1 (.start 7) = none ∧
+    consensusStart (runSeen (init false 3) [] [.start 5, .decidedSF 10 1 120 [1, 2, 3] true false]).1 (.start 11) = some 11 := by
   decide
 
-/-- PARTIAL (c): on EVERY node and for every kind of consensus start, the slot is never BELOW a seen height
-    (`StartNewInstance` refuses `height < c.Height`); only equality can slip through, and only by the reload above. -/
-theorem C15_no_restart_of_old_height_partial_not_below (full : Bool) (q : Nat) (ops : List Op) (op : Op) (slot : Nat)
-    (hcs : consensusStart (runSeen (init full q) [] ops).1 op = some slot) :
-    ∀ h ∈ (runSeen (init full q) [] ops).2, h ≤ slot := by
-  intro h hh
-  have hle : SeenLe (runSeen (init full q) [] ops).1 (runSeen (init full q) [] ops).2 :=
-    SeenLe.runSeen (by intro x hx; simp at hx) ops
-  obtain ⟨c', hst, _, _⟩ := consensusStart_ok hcs
-  have := (startNewInstance_ok hst).1
-  have := hle h hh
-  omega
+/-- everything of a decided message except the store write is independent of a store failure: the controller after
+    `decidedSF` is the controller after `decided` (from ANY state), and through the controller path nothing is written -/
+theorem C15_store_failure_keeps_controller (s : State) (h r root : Nat) (sg : List Nat) (ok via : Bool) :
+    (step s (.decidedSF h r root sg ok via)).1.c = (step s (.decided h r root sg ok via)).1.c ∧
+    (step s (.decidedSF h r root sg ok false)).1.s = s.s := by
+  refine ⟨?_, rfl⟩
+  cases via <;> rfl
 
 /-! ## clause 2 — the highest decided instance survives a restart -/
 
@@ -214,109 +166,80 @@ theorem C15_stored_highest_never_rerun (full : Bool) (q : Nat) (ops ops' : List 
     (hcs : consensusStart (run (run (init full q) ops) ops') op = some slot) :
     a.inst.height < slot := by
   have inv := SInv.reach full q ops
-  obtain ⟨b, hb, hab⟩ := run_highest_mono inv ha ops'
+  obtain ⟨b, hb, hab⟩ := run_highest_mono ha ops'
   have inv' : SInv (run (run (init full q) ops) ops') := inv.run ops'
   unfold SInv at inv'
   obtain ⟨c', hst, _, _⟩ := consensusStart_ok hcs
   obtain ⟨h1, hnone, _⟩ := startNewInstance_ok hst
   have h2 := inv'.le b hb
   by_cases heq : a.inst.height = slot
-  · obtain ⟨i, rest, hl, hi, _⟩ := inv'.live b hb (by omega)
-    have := (find_none_iff.mp hnone) i (by rw [hl]; simp)
-    omega
+  · have hat := inv'.live b hb (by omega)
+    unfold AtTop at hat
+    have hc : (run (run (init full q) ops) ops').c.height = slot := by omega
+    rw [hc, hnone] at hat
+    cases hat
   · omega
 
 example : consensusStart (run (run (init true 3) [.decided 5 1 110 [1, 2, 3] true false]) [.restart false, .begin 8, .restart true])
     (.start 6) = some 6 := by decide
 
-/-- FULL STATEMENT ("the highest decided instance" is what is stored): every valid decided message at or above the
-    controller height ends up as the stored highest record (mechanism: "save as highest only if height >= current") -/
-def C15_top_decided_is_stored_full : Prop :=
-  ∀ (full : Bool) (q : Nat) (ops : List Op) (h r root : Nat) (sg : List Nat) (via : Bool),
-    q ≤ sg.length → (run (init full q) ops).c.height ≤ h →
-    ∃ b, (step (run (init full q) ops) (.decided h r root sg true via)).1.s.highest = some b ∧ b.inst.height = h
-
-/-- false on full nodes, by the same reload: the future decided message of height 5 bumps Height to 5 but nothing is
-    saved as highest (the save looks the instance up in `StoredInstances`, where the reloaded one is not) -/
-theorem C15_top_decided_is_stored_full_refuted : ¬ C15_top_decided_is_stored_full := by
-  intro H
-  obtain ⟨b, hb, _⟩ := H true 3 [.start 9, .decided 5 1 110 [1, 2, 3] true false, .restart true] 5 1 110 [1, 2, 3] false
-    (by decide) (by decide)
-  have hn : (step (run (init true 3) [.start 9, .decided 5 1 110 [1, 2, 3] true false, .restart true])
-      (.decided 5 1 110 [1, 2, 3] true false)).1.s.highest = none := by decide
-  rw [hn] at hb
-  cases hb
-
-/-- PARTIAL: it holds — on histories without store-write failures, and for a message whose write does not fail —
-    whenever the instance is not merely reloaded from storage, i.e. on every light node, and on a full node when the
-    instance is in memory or the historical store has no record of that height -/
-theorem C15_top_decided_is_stored_partial (full : Bool) (q : Nat) (ops : List Op) (hnf : NoStoreFail ops)
+/-- "the highest decided instance" is what is stored: on histories without store-write failures, every valid decided
+    message at or above the controller height ends up as (or already is) the stored highest record — full and light
+    nodes (mechanism: "save as highest only if height >= current"; a write that was made to fail cannot be there) -/
+theorem C15_top_decided_is_stored (full : Bool) (q : Nat) (ops : List Op) (hnf : NoStoreFail ops)
     (h r root : Nat) (sg : List Nat) (via : Bool)
-    (hq : q ≤ sg.length) (hge : (run (init full q) ops).c.height ≤ h)
-    (hnr : (run (init full q) ops).c.full = false ∨ (find (run (init full q) ops).c.insts h).isSome = true ∨
-      histGet (run (init full q) ops).s.hist h = none) :
+    (hq : q ≤ sg.length) (hge : (run (init full q) ops).c.height ≤ h) :
     ∃ b, (step (run (init full q) ops) (.decided h r root sg true via)).1.s.highest = some b ∧ b.inst.height = h :=
-  top_decided_stored (SInvT.reach full q ops hnf) h r root sg via (by rw [run_q]; exact hq) hge hnr
+  top_decided_stored (SInvT.reach full q ops hnf) h r root sg via (by rw [run_q]; exact hq) hge
 
-example : (run (init true 3) [.start 4]).c.height ≤ 6 ∧ histGet (run (init true 3) [.start 4]).s.hist 6 = none := by decide
-
-/-! ## store-write failures and decisions by a commit quorum
-
-The clause-1 theorems above (`_partial_light`, `_partial_attester`, `_partial_not_below`) and the clause-2/3 theorems quantify over
-ALL `Op`s, including `decidedSF` (a decided message delivered while the store fails the write) and `commits` (the running
-instance decides through individual messages while the runner's value check may reject): a failing store does not
-weaken the in-process guarantee, because `UponDecided` only logs the `SaveInstance` error and still adds the instance and
-bumps the height. -/
-
-/-- a decided message for a future height learned during a failing store write is as good as any other, in-process:
-    Height is bumped, the duty in between is refused (non-vacuity of the clause-1 theorems for `decidedSF`) -/
-example : (runSeen (init false 3) [] [.start 5, .decidedSF 10 1 120 [1, 2, 3] true false]).2 = [5, 10] ∧
-    (runSeen (init false 3) [] [.start 5, .decidedSF 10 1 120 [1, 2, 3] true false]).1.c.height = 10 ∧
-    (runSeen (init false 3) [] [.start 5, .decidedSF 10 1 120 [1, 2, 3] true false]).1.s.highest = none ∧
-    consensusStart (runSeen (init false 3) [] [.start 5, .decidedSF 10 1 120 [1, 2, 3] true false]).1 (.start 7) = none ∧
-    consensusStart (runSeen (init false 3) [] [.start 5, .decidedSF 10 1 120 [1, 2, 3] true false]).1 (.start 11) = some 11 := by
-  decide
-
-/-- everything of a decided message except the store write is independent of a store failure: the controller after
-    `decidedSF` is the controller after `decided` (from ANY state) -/
-theorem C15_store_failure_keeps_controller (s : State) (h r root : Nat) (sg : List Nat) (ok via : Bool) :
-    (step s (.decidedSF h r root sg ok via)).1.c = (step s (.decided h r root sg ok via)).1.c ∧
-    (step s (.decidedSF h r root sg ok false)).1.s = s.s := by
-  refine ⟨?_, rfl⟩
-  cases via <;> rfl
+example : NoStoreFail [.start 9, .decided 5 1 110 [1, 2, 3] true false, .restart true] ∧
+    (run (init true 3) [.start 9, .decided 5 1 110 [1, 2, 3] true false, .restart true]).c.height ≤ 5 := by
+  refine ⟨?_, by decide⟩
+  intro op hop h r root sg ok via he
+  subst he
+  simp at hop
 
 /-- a decision of the running instance by a commit quorum is saved BEFORE the runner validates the decided value: the
-    state after `commits` does not depend on the value check (only error / nil of `ProcessConsensus` does) -/
+    controller and the store after `commits` do not depend on the value check (only error / nil of `ProcessConsensus`
+    and whether the duty takes the decided value do) -/
 theorem C15_decided_instance_saved_before_value_check (s : State) (root : Nat) :
-    (step s (.commits root false)).1 = (step s (.commits root true)).1 := by
-  show (commitsStep s root false).1 = (commitsStep s root true).1
+    (step s (.commits root false)).1.c = (step s (.commits root true)).1.c ∧
+    (step s (.commits root false)).1.s = (step s (.commits root true)).1.s := by
+  show (commitsStep s root false).1.c = (commitsStep s root true).1.c ∧
+    (commitsStep s root false).1.s = (commitsStep s root true).1.s
   unfold commitsStep
   split
   · split
-    · split <;> rfl
-    · rfl
-  · rfl
+    · split
+      · split <;> exact ⟨rfl, rfl⟩
+      · exact ⟨rfl, rfl⟩
+    · exact ⟨rfl, rfl⟩
+  · exact ⟨rfl, rfl⟩
 
-/-- … and when that instance is at the controller height (the normal case: nothing higher learned meanwhile) the
-    decided height IS the stored highest afterwards — from ANY state, whatever the value check says — so by
+/-- … and when that instance is at the controller height (nothing higher learned meanwhile) the decided height IS the
+    stored highest afterwards, whatever the value check says — on every reachable state; so by
     `C15_highest_survives_restart` / `C15_stored_highest_never_rerun` it survives restarts and is never run again -/
-theorem C15_commit_quorum_decision_is_stored (s : State) (root : Nat) (vc : Bool) (rh : Nat)
-    (hrun : s.r.running = some rh) (hge : s.c.height ≤ rh) (happ : (step s (.commits root vc)).2 ≠ .na) :
-    ∃ b, (step s (.commits root vc)).1.s.highest = some b ∧ b.inst.height = rh := by
-  have happ' : (commitsStep s root vc).2 ≠ .na := happ
-  show ∃ b, (commitsStep s root vc).1.s.highest = some b ∧ _
-  rcases commitsStep_cases s root vc with ⟨_, hna⟩ | ⟨rh', i, hr', hf, _, _, _, hs⟩
+theorem C15_commit_quorum_decision_is_stored (full : Bool) (q : Nat) (ops : List Op) (hnf : NoStoreFail ops)
+    (root : Nat) (vc : Bool) (rh : Nat)
+    (hrun : (run (init full q) ops).r.running = some rh) (hge : (run (init full q) ops).c.height ≤ rh)
+    (happ : (step (run (init full q) ops) (.commits root vc)).2 ≠ .na) :
+    ∃ b, (step (run (init full q) ops) (.commits root vc)).1.s.highest = some b ∧ b.inst.height = rh := by
+  have inv := SInvT.reach full q ops hnf
+  have happ' : (commitsStep (run (init full q) ops) root vc).2 ≠ .na := happ
+  show ∃ b, (commitsStep (run (init full q) ops) root vc).1.s.highest = some b ∧ _
+  rcases commitsStep_cases (run (init full q) ops) root vc with ⟨_, hna⟩ | ⟨rh', i, hr', hf, hnd, _, _, _, ⟨hv, _⟩ | ⟨_, hs⟩⟩
   · exact absurd hna happ'
+  · have := inv.r.dec hv rh' i hr' hf
+    rw [hnd] at this; cases this
   · rw [hrun] at hr'
     cases hr'
     rw [hs]
     have hih : i.height = rh := find_some_height hf
-    have hfind : find (replaceInst { i with decided := true, commits := singles s.q root } s.c.insts) rh =
-        some { i with decided := true, commits := singles s.q root } :=
-      find_replaceInst_same (i' := { i with decided := true, commits := singles s.q root }) hf hih
-    exact ⟨_, saveFound_writes
-      (c := { s.c with insts := replaceInst { i with decided := true, commits := singles s.q root } s.c.insts }) hfind hge,
-      hih⟩
+    have hfind : find (commitsCtrl (run (init full q) ops) i root).insts rh =
+        some { i with decided := true, commits := singles (run (init full q) ops).q root } :=
+      find_replaceInst_same (i' := { i with decided := true, commits := singles (run (init full q) ops).q root }) hf hih
+    exact saveFound_stores hfind (by rw [commitsCtrl_height]; exact hge)
+      (fun a ha => Nat.le_trans (inv.c.le a ha) hge)
 
 example : (step (run (init false 3) [.start 12]) (.commits 124 false)).2 = .cerr ∧
     ((step (run (init false 3) [.start 12]) (.commits 124 false)).1.s.highest.map (·.inst.height)) = some 12 ∧
@@ -324,131 +247,66 @@ example : (step (run (init false 3) [.start 12]) (.commits 124 false)).2 = .cerr
 
 /-! ## clause 3 — stored decided instances are only replaced upwards -/
 
-/-- FULL STATEMENT: one step leaves the highest record's (height, certificate) alone, or replaces it by a record of a
-    higher height, or — at the same height — by a certificate with more signers. -/
-def C15_highest_replaced_monotone_full : Prop :=
-  ∀ (full : Bool) (q : Nat) (ops : List Op) (op : Op) (a b : Stored),
-    (run (init full q) ops).s.highest = some a → (step (run (init full q) ops) op).1.s.highest = some b →
-    (b.inst.height = a.inst.height ∧ b.cert = a.cert) ∨ a.inst.height < b.inst.height ∨
-    (a.inst.height = b.inst.height ∧ a.cert.signers.length < b.cert.signers.length)
-
-/-- witness 1 (DESIGN §8-5): the comparison in `UponDecided` is per (round, root): stored (round 2, 4 signers) is
-    replaced by (round 1, 3 signers) at the same height -/
-theorem C15_highest_replaced_monotone_full_refuted : ¬ C15_highest_replaced_monotone_full := by
-  intro H
-  have h := H false 3 [.start 5, .decided 5 2 110 [1, 2, 3, 4] true false] (.decided 5 1 110 [1, 3, 4] true false)
-    ⟨⟨5, 2, true, false, [⟨2, 110, [1, 2, 3, 4]⟩]⟩, ⟨2, 110, [1, 2, 3, 4]⟩⟩
-    ⟨⟨5, 2, true, false, [⟨2, 110, [1, 2, 3, 4]⟩]⟩, ⟨1, 110, [1, 3, 4]⟩⟩ (by decide) (by decide)
-  revert h
-  decide
-
-/-- the statement restricted to replacements within one (round, root) -/
-def C15_highest_replaced_monotone_same_round_full : Prop :=
-  ∀ (full : Bool) (q : Nat) (ops : List Op) (op : Op) (a b : Stored),
-    (run (init full q) ops).s.highest = some a → (step (run (init full q) ops) op).1.s.highest = some b →
-    a.inst.height = b.inst.height → a.cert.round = b.cert.round → a.cert.root = b.cert.root → b.cert ≠ a.cert →
-    a.cert.signers.length < b.cert.signers.length
-
-/-- witness 2: even within ONE (round, root) the clause fails once the certificate's round is below the instance's
-    `State.Round`: that bucket of the commit container is trimmed by the runner's compaction after every decided message
-    (and by `CompactCopy` + reload at a restart), so the comparison sees an empty bucket. Here: first decided message in
-    round 2 (State.Round := 2), then (round 1, 4 signers) stored, then (round 1, 3 signers) replaces it; every message
-    goes through the runner's `ProcessConsensus`, no restart involved. -/
-theorem C15_highest_replaced_monotone_same_round_full_refuted : ¬ C15_highest_replaced_monotone_same_round_full := by
-  intro H
-  have h := H false 3 [.decided 5 2 110 [1, 2, 3] true true, .decided 5 1 110 [1, 2, 3, 4] true true]
-    (.decided 5 1 110 [1, 2, 4] true true)
-    ⟨⟨5, 2, true, false, [⟨2, 110, [1, 2, 3]⟩]⟩, ⟨1, 110, [1, 2, 3, 4]⟩⟩
-    ⟨⟨5, 2, true, false, [⟨2, 110, [1, 2, 3]⟩]⟩, ⟨1, 110, [1, 2, 4]⟩⟩ (by decide) (by decide) rfl rfl rfl (by decide)
-  revert h
-  decide
-
-/-- PARTIAL (height): along any history (restarts included) the highest record is never lost and its height never
-    decreases -/
-theorem C15_highest_replaced_monotone_partial_height (full : Bool) (q : Nat) (ops ops' : List Op) (a : Stored)
-    (ha : (run (init full q) ops).s.highest = some a) :
-    ∃ b, (run (run (init full q) ops) ops').s.highest = some b ∧ a.inst.height ≤ b.inst.height :=
-  run_highest_mono (SInv.reach full q ops) ha ops'
-
-/-- PARTIAL (same height): when one step replaces the certificate of the highest record at the same height, then
-    (1) the live instance of that height is decided and the new certificate has strictly more signers than
-        `LongestUniqueSignersForRoundAndRoot` finds in the bucket of the NEW certificate's (round, root)
-        — monotone per (round, root) with respect to the live commit container;
-    (2) consequently it has strictly more signers than the replaced certificate whenever both have the same
-        (round, root) and the replaced certificate's round is not below the stored instance's State.Round (so that
-        compaction cannot have trimmed its bucket).
-    Missing for the full clause: a comparison across rounds, and a comparison that survives compaction — both need
-    the stored certificate (or its signer count) rather than the in-memory commit container. -/
-theorem C15_highest_replaced_monotone_partial (full : Bool) (q : Nat) (ops : List Op) (op : Op) (a b : Stored)
-    (ha : (run (init full q) ops).s.highest = some a) (hb : (step (run (init full q) ops) op).1.s.highest = some b)
-    (hh : a.inst.height = b.inst.height) (hne : b.cert ≠ a.cert) :
-    (∃ i, find (run (init full q) ops).c.insts a.inst.height = some i ∧ i.decided = true ∧
-        longest i.commits b.cert.round b.cert.root < b.cert.signers.length) ∧
-    (b.cert.round = a.cert.round → b.cert.root = a.cert.root → a.inst.round ≤ a.cert.round →
-        a.cert.signers.length < b.cert.signers.length) := by
-  obtain ⟨b', hb', hrel⟩ := step_highest (SInv.reach full q ops) ha op
-  rw [hb] at hb'
-  cases hb'
-  rcases hrel with rfl | hlt | ⟨_, i, hf, hc, hl⟩
-  · exact absurd rfl hne
-  · omega
-  · refine ⟨⟨i, hf, hc.1, hl⟩, ?_⟩
-    intro hr hroot htrim
-    have := hc.2.2 htrim
-    rw [← hr, ← hroot] at this
-    omega
-
-/-- non-vacuity of the partial: a same-height replacement with more signers in the same (round, root) -/
-example : (run (init false 3) [.decided 5 1 110 [1, 2, 3] true false]).s.highest =
-      some ⟨⟨5, 1, true, false, [⟨1, 110, [1, 2, 3]⟩]⟩, ⟨1, 110, [1, 2, 3]⟩⟩ ∧
-    (step (run (init false 3) [.decided 5 1 110 [1, 2, 3] true false]) (.decided 5 1 110 [1, 2, 3, 4] true false)).1.s.highest =
-      some ⟨⟨5, 1, true, false, [⟨1, 110, [1, 2, 3]⟩, ⟨1, 110, [1, 2, 3, 4]⟩]⟩, ⟨1, 110, [1, 2, 3, 4]⟩⟩ := by decide
-
-/-! ## historical records (full nodes) — model-level observation -/
-
-/-- the same clause for a historical record (keyed by height) -/
-def C15_historical_replaced_monotone_full : Prop :=
-  ∀ (full : Bool) (q : Nat) (ops : List Op) (op : Op) (h : Nat) (a b : Stored),
-    histGet (run (init full q) ops).s.hist h = some a → histGet (step (run (init full q) ops) op).1.s.hist h = some b →
-    b.cert = a.cert ∨ a.cert.signers.length < b.cert.signers.length
-
-/-- a started-but-undecided height is not remembered across a restart, so after the restart the instance of a height
-    with a historical record can be started afresh; its first decided message then overwrites the historical record
-    (round 1, 4 signers) by (round 1, 3 signers) -/
-theorem C15_historical_replaced_monotone_full_refuted : ¬ C15_historical_replaced_monotone_full := by
-  intro H
-  have h := H true 3 [.start 9, .decided 5 1 110 [1, 2, 3, 4] true false, .restart true, .start 5]
-    (.decided 5 1 110 [1, 2, 3] true false) 5
-    ⟨⟨5, 1, true, false, [⟨1, 110, [1, 2, 3, 4]⟩]⟩, ⟨1, 110, [1, 2, 3, 4]⟩⟩
-    ⟨⟨5, 1, true, false, [⟨1, 110, [1, 2, 3]⟩]⟩, ⟨1, 110, [1, 2, 3]⟩⟩ (by decide) (by decide)
-  revert h
-  decide
-
-/-! ## the candidate repairs (notes/C15.md) — statements about `Ssv/Model/HeightsRepaired.lean`, NOT about the pinned tree
-
-The two repairs are not applied to /repo; these theorems answer "would the repaired code satisfy the full clauses?" for
-the model of the repaired code (which agrees with a patched scratch tree on every generated history, see notes). -/
-
-/-- repaired model, FULL clause 3 — from ANY state, for every op: the highest record is never lost and changes only to a
-    higher height or, at the same height, to a certificate with more signers (repair 1 puts the comparison with the
-    stored certificate into the store itself) -/
-theorem C15_repaired_model_highest_replaced_monotone (s : State) (op : Op) (a : Stored) (ha : s.s.highest = some a) :
-    ∃ b, (stepR s op).1.s.highest = some b ∧
+/-- CLAUSE 3, in full, from ANY state and for every op: the highest record is never lost and is only ever replaced by a
+    record for a higher height or, at the same height, by a certificate with more signers (`Mono`: unchanged in
+    (height, certificate), or higher, or same height with more signers); and the same for the historical record of
+    every height. (The store itself enforces it: `saveInstance` writes a key only if `replaces`.) -/
+theorem C15_highest_replaced_monotone (s : State) (op : Op) :
+    (∀ a, s.s.highest = some a → ∃ b, (step s op).1.s.highest = some b ∧
       ((b.inst.height = a.inst.height ∧ b.cert = a.cert) ∨ a.inst.height < b.inst.height ∨
-       (a.inst.height = b.inst.height ∧ a.cert.signers.length < b.cert.signers.length)) :=
-  stepR_highest_mono s op a ha
+       (a.inst.height = b.inst.height ∧ a.cert.signers.length < b.cert.signers.length))) ∧
+    (∀ h a, histGet s.s.hist h = some a → ∃ b, histGet (step s op).1.s.hist h = some b ∧
+      ((b.inst.height = a.inst.height ∧ b.cert = a.cert) ∨ a.inst.height < b.inst.height ∨
+       (a.inst.height = b.inst.height ∧ a.cert.signers.length < b.cert.signers.length))) :=
+  step_store_mono s op
 
-/-- repaired model: the three refutation witnesses no longer go through (the full clause 1 for the repaired model is
-    not proved in Lean; it was searched on 2.3 million random model steps without a counterexample, see notes) -/
-theorem C15_repaired_model_witnesses_closed :
-    -- F3: the late consensus start for the reloaded height is refused, and the height is stored as highest
-    (stepR (runR (init true 3) witnessReload) .decide).2 = .refused ∧
-    ((runR (init true 3) witnessReload).s.highest.map (·.inst.height)) = some 5 ∧
-    -- F1: (round 1, 3 signers) does not replace (round 2, 4 signers)
-    ((stepR (runR (init false 3) [.start 5, .decided 5 2 110 [1, 2, 3, 4] true false])
-        (.decided 5 1 110 [1, 3, 4] true false)).1.s.highest.map (·.cert)) = some ⟨2, 110, [1, 2, 3, 4]⟩ ∧
-    -- F2: (round 1, 3 signers) does not replace (round 1, 4 signers) after compaction
-    ((stepR (runR (init false 3) [.decided 5 2 110 [1, 2, 3] true true, .decided 5 1 110 [1, 2, 3, 4] true true])
+/-- non-vacuity: a same-height replacement by more signers happens; one by fewer signers of another round does not -/
+example : ((step (run (init false 3) [.decided 5 1 110 [1, 2, 3] true false]) (.decided 5 1 110 [1, 2, 3, 4] true false)).1.s.highest.map
+      (·.cert)) = some ⟨1, 110, [1, 2, 3, 4]⟩ ∧
+    ((step (run (init false 3) [.start 5, .decided 5 2 110 [1, 2, 3, 4] true false]) (.decided 5 1 110 [1, 3, 4] true false)).1.s.highest.map
+      (·.cert)) = some ⟨2, 110, [1, 2, 3, 4]⟩ := by decide
+
+/-- along any history (restarts included) the highest record is never lost and its height never decreases -/
+theorem C15_highest_height_monotone (s : State) (ops : List Op) (a : Stored) (ha : s.s.highest = some a) :
+    ∃ b, (run s ops).s.highest = some b ∧ a.inst.height ≤ b.inst.height :=
+  run_highest_mono ha ops
+
+/-! ## regression: the three defects of the tree before the fixes (Ssv/Model/HeightsOld.lean) -/
+
+def witnessReload : List Op :=
+  [.start 9, .decided 5 1 110 [1, 2, 3] true false, .restart true, .begin 5, .decided 5 1 110 [1, 2, 3] true false]
+
+/-- F3 (fixed by 26e2e6b00). Old semantics: a full node re-ran a height it had learned decided — the instance reloaded
+    from storage was neither kept nor saved as highest, so the late `decide` succeeded. Current model: refused, and the
+    height is stored as highest. -/
+theorem C15_regression_reloaded_instance_kept :
+    ((stepOld (runOld (init true 3) witnessReload) .decide).2 = .ok ∧
+      (runOld (init true 3) witnessReload).c.height = 5 ∧ (runOld (init true 3) witnessReload).s.highest = none) ∧
+    ((step (run (init true 3) witnessReload) .decide).2 = .refused ∧
+      ((run (init true 3) witnessReload).s.highest.map (·.inst.height)) = some 5) := by decide
+
+/-- F1 (fixed by 358626700). Old semantics: stored (round 2, 4 signers) was replaced by (round 1, 3 signers) at the same
+    height. Current model: kept. -/
+theorem C15_regression_other_round_fewer_signers :
+    ((stepOld (runOld (init false 3) [.start 5, .decided 5 2 110 [1, 2, 3, 4] true false])
+        (.decided 5 1 110 [1, 3, 4] true false)).1.s.highest.map (·.cert)) = some ⟨1, 110, [1, 3, 4]⟩ ∧
+    ((step (run (init false 3) [.start 5, .decided 5 2 110 [1, 2, 3, 4] true false])
+        (.decided 5 1 110 [1, 3, 4] true false)).1.s.highest.map (·.cert)) = some ⟨2, 110, [1, 2, 3, 4]⟩ := by decide
+
+/-- F2 (fixed by 358626700). Old semantics: within ONE (round, root) a stored (round 1, 4 signers) was replaced by
+    (round 1, 3 signers) once compaction had trimmed that round (State.Round = 2). Current model: kept. -/
+theorem C15_regression_same_round_trimmed_bucket :
+    ((stepOld (runOld (init false 3) [.decided 5 2 110 [1, 2, 3] true true, .decided 5 1 110 [1, 2, 3, 4] true true])
+        (.decided 5 1 110 [1, 2, 4] true true)).1.s.highest.map (·.cert)) = some ⟨1, 110, [1, 2, 4]⟩ ∧
+    ((step (run (init false 3) [.decided 5 2 110 [1, 2, 3] true true, .decided 5 1 110 [1, 2, 3, 4] true true])
         (.decided 5 1 110 [1, 2, 4] true true)).1.s.highest.map (·.cert)) = some ⟨1, 110, [1, 2, 3, 4]⟩ := by decide
+
+/-- the historical-record variant: old semantics let the first decided message of a re-run instance overwrite the
+    historical (round 1, 4 signers) by (round 1, 3 signers). Current model: kept. -/
+theorem C15_regression_historical_overwritten :
+    ((histGet (stepOld (runOld (init true 3) [.start 9, .decided 5 1 110 [1, 2, 3, 4] true false, .restart true, .start 5])
+        (.decided 5 1 110 [1, 2, 3] true false)).1.s.hist 5).map (·.cert)) = some ⟨1, 110, [1, 2, 3]⟩ ∧
+    ((histGet (step (run (init true 3) [.start 9, .decided 5 1 110 [1, 2, 3, 4] true false, .restart true, .start 5])
+        (.decided 5 1 110 [1, 2, 3] true false)).1.s.hist 5).map (·.cert)) = some ⟨1, 110, [1, 2, 3, 4]⟩ := by decide
 
 end Ssv.Heights
